@@ -1221,7 +1221,8 @@ def deriv_smooth_vel(m: Model, d: Data, out: wp.array2d[float]):
       ],
       outputs=[out],
     )
-  if m.has_fluid:
+  # passive forces (fluid forces included) are switched off when springs and dampers are both disabled
+  if m.has_fluid and not ((m.opt.disableflags & DisableBit.SPRING) and (m.opt.disableflags & DisableBit.DAMPER)):
     if m.body_fluid_ellipsoid_adr.size > 0:
       wp.launch(
         _qderiv_ellipsoid_fluid,
